@@ -34,6 +34,22 @@ pub(crate) fn set_prev(node: &Arc<ContextData>, prev: &Arc<ContextData>) {
     }
 }
 
+/// Typed static storage for the chain nodes under Kani: an `ArcInner<ContextData>` allocated on the heap is a byte
+/// array to CBMC (every reference-count update and every field read goes through byte-level updates of a ~2.5 KB
+/// object); a static of the same `#[repr(C)]` layout is a typed struct, so the same accesses are plain field accesses.
+/// `Arc::from_raw` on the data field yields an ordinary `Arc<ContextData>` (never freed: drop_slow is stubbed and the
+/// count never reaches zero).
+#[repr(C)]
+pub(crate) struct Slot { strong: std::sync::atomic::AtomicUsize, weak: std::sync::atomic::AtomicUsize, data: std::mem::MaybeUninit<ContextData> }
+#[cfg(any())]
+static mut SLOTS: [Slot; 5] = [const { Slot { strong: std::sync::atomic::AtomicUsize::new(1), weak: std::sync::atomic::AtomicUsize::new(1), data: std::mem::MaybeUninit::uninit() } }; 5];
+pub(crate) fn arc_node(i: usize, cd: ContextData) -> Arc<ContextData> {
+    // MEASURED (build round): placing the nodes in the typed static made a bare lookup+drop 5x cheaper (104 s -> 21 s for
+    // eight lookups) but made whole evaluator harnesses several times SLOWER (add/sub: 390 s -> no verdict in 25 min),
+    // so the nodes stay ordinary heap Arcs and the static slots are unused.
+    { let _ = i; Arc::new(cd) }
+}
+
 /// Chain served by the `get_context_data` stub (Kani is single threaded).
 pub(crate) static mut CHAIN: Vec<Arc<ContextData>> = Vec::new();
 
@@ -106,7 +122,7 @@ pub(crate) mod gen {
         for i in (0..nodes.len()).rev() {
             let next = if i + 1 < nodes.len() { Some(format!("n{}", i + 1)) } else { None };
             // GaloisTool permutation tables are emitted as found (lazily grown cache)
-            s += &format!("let n{} = std::sync::Arc::new({});\n", i, node_lit(&nodes[i], next.as_deref()));
+            s += &format!("let n{} = crate::context::verif_v::arc_node({}, {});\n", i, i, node_lit(&nodes[i], next.as_deref()));
         }
         for i in 1..nodes.len() {
             if nodes[i].prev_context_data().is_some() { s += &format!("crate::context::verif_v::set_prev(&n{}, &n{});\n", i, i - 1); }
